@@ -631,6 +631,18 @@ def check_C10(tier, seed):
     for i in range(30 if quick else 600):
         S, has_rt = F.role_shader(rng, big_arrays=False)
         cases.append({"id": "enc-role-%04d" % i, "family": "encase-roles", "S": S, "opts": F.opts(enc=True, mv="glam", bmv=(i % 2 == 0))})
+    # structs with two roles: vertex input AND storage-bound (padding-free so that the bytemuck vertex derive accepts them)
+    V2 = {"k": "vec", "n": 2, "s": "f32"}
+    V4 = F.VEC4
+    for i, mem in enumerate([[V4, V4], [V4, V2, V2], [V2, V2, V4], [V4], [V4, {"k": "vec", "n": 4, "s": "u32"}], [{"k": "vec", "n": 4, "s": "i32"}, V4, V4]]):
+        members = [{"name": "m%d" % j, "ty": t, "io": {"k": "loc", "n": j}} for j, t in enumerate(mem)]
+        S = {"structs": [{"name": "Particle", "members": members}],
+             "globals": [{"name": "particles", "space": "storage_r", "group": "0", "binding": "0", "ty": {"k": "array", "n": 4, "e": {"k": "struct", "name": "Particle"}}}],
+             "consts": [], "overrides": [], "functions": [],
+             "entries": [{"name": "vs_main", "stage": "vertex", "params": [{"k": "struct", "name": "p", "ty": "Particle"}], "result": {"k": "builtin", "b": "position"},
+                          "body": [{"k": "access", "g": "particles", "how": "load"}], "wg": []}]}
+        for j, o in enumerate([F.opts(enc=True, mv="glam", bmv=True), F.opts(enc=True, mv="glam"), F.opts(enc=True, mv="glam", bmv=True, serde=True)]):
+            cases.append({"id": "enc-both-%d-%d" % (i, j), "family": "encase-two-roles", "S": S, "opts": o})
     compiled_and_judge(rep, "C10", cases, "encase", "shim", {"encase"}, keep=["structs"])
     return finish(rep)
 
